@@ -1,4 +1,5 @@
 """C11 - clearsigned control data is accepted only with a valid keyring signature."""
+import re
 import lib
 import gen
 import debgen
@@ -13,6 +14,37 @@ def sign(chk, docs):
 def split3(line):
     parts = line.split(" | ")
     return parts if len(parts) == 3 else [line, "?", "?"]
+
+
+def crc24(data):
+    crc = 0xB704CE
+    for b in data:
+        crc ^= b << 16
+        for _ in range(8):
+            crc <<= 1
+            if crc & 0x1000000:
+                crc ^= 0x1864CFB
+    return crc & 0xFFFFFF
+
+
+def armor_damaged(doc):
+    """True when the FIRST signature armor of a clearsigned document has the plain RFC 4880 shape (base64 lines, one "=XXXX"
+    checksum line, the END line) and its checksum does not match its data - judged here, without the library.  Anything
+    of another shape: no opinion (False)."""
+    import base64
+    import binascii
+    m = re.search(rb"\n-----BEGIN PGP SIGNATURE-----\n((?:[A-Za-z][^\n]*\n)*)\n((?:[A-Za-z0-9+/=]+\n)+?)=([A-Za-z0-9+/]{4})\n-----END PGP SIGNATURE-----", doc)
+    if not m:
+        return False
+    body = m.group(2).replace(b"\n", b"")
+    if b"=" in body.rstrip(b"="):
+        return False
+    try:
+        data = base64.b64decode(body, validate=True)
+        want = base64.b64decode(m.group(3), validate=True)
+    except (binascii.Error, ValueError):
+        return False
+    return crc24(data) != int.from_bytes(want, "big")
 
 
 def run(chk):
@@ -131,6 +163,8 @@ def run(chk):
                     why = "the reported signer is not the entity whose key verified the signature"
                 elif want.startswith("ok ") and im.split(" ", 2)[2] != want[3:]:
                     why = "the paragraphs returned are not exactly those of the signed text"
+        if kr != b"n" and im.startswith("ok") and armor_damaged(c[1][1]):
+            why = "reading succeeded although the signature's armor is damaged (its CRC-24 line does not match its data)"
         if tag == "unsigned" and "signer=x" in im:
             why = "a signer is reported for unsigned input"
         if kr == b"n" and "signer=x" in im:
